@@ -39,6 +39,12 @@ def np_unique(eng, args, kwargs):
     eng.assume(z3.ForAll([k], z3.Implies(z3.And(k >= 0, k < m), z3.And(wit(k) >= 0, wit(k) < n, out.get(k).z == a.get(wit(k)).z))))
     eng.assume(z3.ForAll([k, k2], z3.Implies(z3.And(k >= 0, k < k2, k2 < m), out.get(k).z < out.get(k2).z)))
     eng.assume(z3.ForAll([i], z3.Implies(z3.And(i >= 0, i < n), z3.And(pos(i) >= 0, pos(i) < m, out.get(pos(i)).z == a.get(i).z))))
+    # ground INSTANCES of the three axioms above at the first positions (nothing new is assumed: they only give the
+    # solver's E-matching the terms out[0], out[1], a[0] to start from -- `len(np.unique(a)) == 1` is decided by them)
+    for kk in (0, 1):
+        eng.assume(z3.Implies(kk < m, z3.And(wit(kk) >= 0, wit(kk) < n, out.get(kk).z == a.get(wit(kk)).z)))
+    eng.assume(z3.Implies(1 < m, out.get(0).z < out.get(1).z))
+    eng.assume(z3.Implies(0 < n, z3.And(pos(0) >= 0, pos(0) < m, out.get(pos(0)).z == a.get(0).z)))
     return out
 
 
